@@ -91,7 +91,74 @@ def validate_witness(item):
     return (label, witness.size(spec), probs)
 
 
-def explore(tier):
+def _table_integrity(_):
+    import copy
+    import json
+    from mc import e3
+    tab = ruleinfo.table()
+    before = json.dumps(mrule.rules_dict, sort_keys=True)
+    n = 0
+    for rn in sorted(tab):
+        node, direct = ruleinfo.parent_for(rn)
+        ra = ruleinfo.automata(rn)
+        variants = []
+        attrs = tab[rn][0]
+        for a, spec in attrs.items():
+            variants.append(("attr", a, "zz-unlisted"))
+            variants.append(("attr", a, ""))
+        variants.append(("attr", "zzForeignAttr", "f"))
+        variants.append(("noattrs", None, None))
+        for c in e3.CONTENT_MENU[:12]:
+            variants.append(("content", None, c))
+        for w in (["zzForeign"], list(ra.names[:1]) * 3, list(reversed(ra.names[:4]))):
+            variants.append(("children", None, w))
+        for kind, k, v in variants:
+            nd, _d = ruleinfo.parent_for(rn)
+            if kind == "attr":
+                nd.add_attribute(k, v)
+            elif kind == "noattrs":
+                nd.attributes = {}
+            elif kind == "content":
+                nd.content = v
+            else:
+                for nm_ in v:
+                    nd.add_child(Node(nm_))
+            for errs in (None, []):
+                try:
+                    ruleinfo.validate_node(nd, rn, _d, errs)
+                except Exception:  # noqa
+                    pass
+                n += 1
+            try:
+                r = mrule.Rule(rn)
+                for a in list(attrs) + ["zz"]:
+                    try:
+                        r.is_required_attribute(a)
+                        r.allowed_attribute_values(a)
+                    except Exception:  # noqa
+                        pass
+                for nm_ in list(ra.names[:3]) + ["zzForeign"]:
+                    try:
+                        r.child_insert_index(nd, Node(nm_))
+                        r.is_allowed_child(nm_)
+                    except Exception:  # noqa
+                        pass
+            except Exception:  # noqa
+                pass
+    after = json.dumps(mrule.rules_dict, sort_keys=True)
+    probs = []
+    if after != before or mrule.rules_dict != tab:
+        changed = [rn for rn in tab if mrule.rules_dict.get(rn) != tab[rn]]
+        probs.append(problem("rule_table_mutated_by_use", {"what": "rules_dict after validating invalid nodes", "rules": changed[:5]},
+                             expected="table unchanged", observed={"changed_rules": changed[:5],
+                                                                   "now": [mrule.rules_dict.get(r) for r in changed[:1]],
+                                                                   "structural_complaints": [p_["observed"] for r in changed[:3]
+                                                                                             for p_ in structural(r, mrule.rules_dict.get(r))][:5]}))
+    return probs
+
+
+def table_checks():
+    """everything that needs no worker processes: mappings, structure, closure (steps 0-3)"""
     acc = core.Acc()
     tab = ruleinfo.table()
     nm = ruleinfo.node_mappings()
@@ -164,13 +231,27 @@ def explore(tier):
                     dq.append(c)
     unreachable_rules = sorted(set(tab) - reach_rules)
 
-    # 4. satisfiability (least fixpoint) + witnesses accepted by the real validator
-    sat, rounds = witness.fixpoint()
+
+    sat, _rounds = witness.fixpoint()
     for e in sorted(nm):
         if e not in sat:
             acc.add_problem(problem("element_unsatisfiable", {"element": e},
                                     expected="some tree rooted here validates", observed="no accepting path over satisfiable names",
                                     element=e))
+    return acc, states, transitions, nm, tab, reach_rules, unreachable_rules
+
+
+def explore(tier):
+    acc, states, transitions, nm, tab, reach_rules, unreachable_rules = table_checks()
+    # 3b. the table stays what it is while it is being used: validating valid AND invalid nodes (every attribute fault,
+    # content fault and child fault per rule), introspecting and computing insertion indices must not change the
+    # in-memory table (run in a child process; compared with the shipped file afterwards)
+    for p in core.run_isolated(_table_integrity, None):
+        acc.add_problem(p)
+    acc.count("table_integrity_validations", 1)
+
+    # 4. satisfiability (least fixpoint) + witnesses accepted by the real validator
+    sat, rounds = witness.fixpoint()
     specs = witness.all_base_specs(rich=(tier == "thorough"), with_tour=True,
                                    max_size=200 if tier == "thorough" else 80)
     res = core.pmap(validate_witness, specs, chunksize=8)
@@ -204,8 +285,9 @@ def explore(tier):
 def replay(case):
     if "witness" in case:
         return validate_witness((case["witness"], case["spec"]))[2]
-    # table-level facts: recompute everything and return the matching problems
-    acc, _ = explore("quick")
+    if str(case.get("what", "")).startswith("rules_dict after"):
+        return _table_integrity(None)
+    acc = table_checks()[0]
     out = []
     for ps in acc.problems.values():
         for p in ps:
